@@ -67,23 +67,25 @@ Theorem gp_index_stable_partial : forall cs t,
 Proof. exact ApiProofs.gp_index_stable_partial. Qed.
 Print Assumptions gp_index_stable_partial.
 
-(* ... while Group insertion can make an existing object lose its gp_index (and userdata): a mergeable
-   Group of smaller kind overwrites the existing Group in place (hwloc_replace_linked_object) *)
-Theorem gp_index_stable_refuted : exists t g old,
-  Inv t /\ existsb (N.eqb old) (gps (m_root t)) = true /\
-  existsb (N.eqb old) (gps (m_root (fst (step t (CGroup g))))) = false.
-Proof.
-  exists topo1, (gsp 3 false 3), 8. destruct group_smaller_kind_replaces_identity as (_ & H2 & H3).
-  split; [exact Inv_topo1|]. split; assumption.
-Qed.
-Print Assumptions gp_index_stable_refuted.
-
-(* userdata of every existing object (named by gp_index) is never altered, for EVERY call including Group
-   insertion and every argument, along whole histories *)
-Theorem userdata_untouched : forall cs t g,
+(* userdata of every existing object (named by gp_index) is never altered by any modelled call except Group
+   insertion, along whole histories.  _partial: the full statement is FALSE on the faithful model (refuted below) *)
+Theorem userdata_untouched_partial : forall cs t g,
+  forallb (fun c => negb (is_group_call c)) cs = true ->
   g < m_next_gp t -> x_ud (get_extra (m_extra (run t cs)) g) = x_ud (get_extra (m_extra t) g).
 Proof. exact ApiProofs.history_userdata_untouched. Qed.
-Print Assumptions userdata_untouched.
+Print Assumptions userdata_untouched_partial.
+
+(* Group insertion can overwrite a surviving object: a mergeable Group of smaller kind (or a dont_merge Group)
+   with the sets of an existing mergeable Group replaces its contents in place (hwloc_replace_linked_object);
+   since 6dba2e5 the object keeps its gp_index, but its userdata is replaced by the inserted Group's *)
+Theorem userdata_untouched_refuted : exists t g old,
+  Inv t /\ old < m_next_gp t /\ existsb (N.eqb old) (gps (m_root (fst (step t (CGroup g))))) = true /\
+  x_ud (get_extra (m_extra (fst (step t (CGroup g)))) old) <> x_ud (get_extra (m_extra t) old).
+Proof.
+  exists topo1, (gsp 3 false 3), 8. destruct group_smaller_kind_overwrites_userdata as (_ & H2 & H3 & H4).
+  split; [exact Inv_topo1|]. split; [reflexivity|]. split; [exact H2|]. rewrite H3, H4. discriminate.
+Qed.
+Print Assumptions userdata_untouched_refuted.
 
 Example userdata_nonvacuous : x_ud (get_extra (m_extra topo1) 8) = true /\ 8 < m_next_gp topo1.
 Proof. split; reflexivity. Qed.
